@@ -38,7 +38,14 @@ R_WORD = T("sub", (T("attr", (END, "values")), const(1)))
 
 
 def _has_arith(t: T, word: T) -> bool:
-    """True when `word` occurs under an arithmetic operator inside t."""
+    """True when `word` occurs under an arithmetic operator inside t.  A full-width (64-bit) signed or unsigned view of
+    the word, however it is spelled (ctypes, two's-complement arithmetic), is the word itself."""
+    from .. import normal
+
+    def full_view(x: T) -> T:
+        v = normal.view_of_word(x)
+        return v[0] if v is not None and v[1] >= 64 else x
+    t = normal.rewrite(t, full_view)
     for x in sym.walk(t):
         if x.op in ("bin", "un") and sym.contains(x, word):
             return True
